@@ -434,7 +434,7 @@ func capacityHintOnly(fn *ssa.Function, call *ssa.Call) bool {
 
 func runC09(c *Ctx) {
 	P := c.P
-	c.Explanation = "Lock-discipline proof for cache.Cache: a flow-sensitive must-lockset analysis over the go/ssa CFG of every function of package cache that touches guarded Cache state shows that every access to {store,size,limit,count}, every Store-interface call and every callback call happens while c.μ is held (R-LOCK-HELD); each method is exactly one critical section opened first thing and closed by a deferred Unlock (R-LOCK-WHOLE); no function outside those sections touches guarded state (R-LOCK-WHO); no call made under the lock can re-acquire it (R-LOCK-REENTRY); callback fields and limit are written only at construction (R-SETONCE); the package starts no goroutines and uses no channels (R-NO-GO); lruStore state is reachable only through the Store interface from Cache methods (R-STORE-PRIVATE). Together: all conflicting accesses are ordered by the mutex (no data race) and every concurrent history is equivalent to the sequential history in lock-acquisition order (linearizable w.r.t. the sequential behaviour of C08). Lock operations on a by-value copy of the cache are reported as not being operations on the shared mutex. An exported method that leaves the locking to a callee makes exactly one lock-acquiring call, not in a loop; closures and helpers that only relay to a function touching guarded state take part in the entry-lockset fixpoint. Does NOT decide the sequential behaviour itself, nor liveness."
+	c.Explanation = "Lock-discipline proof for cache.Cache: a flow-sensitive must-lockset analysis over the go/ssa CFG of every function of package cache that touches guarded Cache state shows that every access to {store,size,limit,count}, every Store-interface call and every callback call happens while c.μ is held (R-LOCK-HELD); each method is exactly one critical section opened first thing and closed by a deferred Unlock (R-LOCK-WHOLE); no function outside those sections touches guarded state (R-LOCK-WHO); no call made under the lock can re-acquire it (R-LOCK-REENTRY); callback fields and limit are written only at construction (R-SETONCE); the package starts no goroutines and uses no channels (R-NO-GO); lruStore state is reachable only through the Store interface from Cache methods (R-STORE-PRIVATE). Together: all conflicting accesses are ordered by the mutex (no data race) and every concurrent history is equivalent to the sequential history in lock-acquisition order (linearizable w.r.t. the sequential behaviour of C08). (R-CALLBACK-ONCE) the clause 'every entry that leaves the cache is reported to the eviction callback exactly once' is C08's pairing rule R-EVICT-PAIR, imported: with every departure and callback inside one critical section, a departure without its callback is the same fault under every schedule. Lock operations on a by-value copy of the cache are reported as not being operations on the shared mutex. An exported method that leaves the locking to a callee makes exactly one lock-acquiring call, not in a loop; closures and helpers that only relay to a function touching guarded state take part in the entry-lockset fixpoint. Does NOT decide the sequential behaviour itself, nor liveness."
 	c.assume("user callbacks (sizeOf, onEvict) do not call back into the same Cache (they would self-deadlock, visibly)")
 	c.assume("a Store is not shared between caches (documented contract of the Store interface)")
 	c.assume("cached values are not mutated by their owners after Put")
@@ -445,6 +445,26 @@ func runC09(c *Ctx) {
 	c.rule("R-LOCK-REENTRY", 5, "no call made while Locked reaches a Lock of a Cache mutex through the call graph (static callees + CHA on repository types)")
 	c.rule("R-SETONCE", 1, "sizeOf, onEvict and limit (or the settings struct holding them) are stored only on the fresh allocation in the constructor")
 	c.rule("R-NO-GO", 1, "no go statement, channel operation or select in package cache")
+	// "every entry that leaves the cache is reported to the eviction callback exactly once": under the lock
+	// discipline above this is the sequential pairing rule of C08, imported here (a departure without its callback
+	// is the same fault under any schedule)
+	c.rule("R-CALLBACK-ONCE", 3, "C08's R-EVICT-PAIR holds: each departure from the store is paired with exactly one eviction callback on that very (key, value), and no callback without a departure")
+	{
+		sub := newCtx(P, "C08", c.Tier)
+		runC08(sub)
+		for _, o := range sub.Obligs {
+			if o.Rule != "R-EVICT-PAIR" {
+				continue
+			}
+			key := "C08:" + o.Construct
+			if o.Verdict == "ok" {
+				c.ok("R-CALLBACK-ONCE", key, 0, "holds")
+			} else {
+				c.Obligs = append(c.Obligs, Oblig{Rule: "R-CALLBACK-ONCE", Construct: c.uniq("R-CALLBACK-ONCE", key), Pos: o.Pos, Verdict: o.Verdict, Config: c.P.Config,
+					Msg: "an entry leaves the cache without exactly one eviction callback and its share of the accounting (C08's pairing rule): " + o.Msg})
+			}
+		}
+	}
 	c.rule("R-STORE-PRIVATE", 3, "lruStore is allocated only in LRU, its fields are touched only by its own methods and LRU's closure, and its methods are never called statically from outside")
 
 	m := &cacheModel{P: P, guarded: map[*types.Var]string{}, callbacks: map[*types.Var]string{}, setOnce: map[*types.Var]string{}}
